@@ -744,10 +744,12 @@ def main():
     verdict = C.Verdict(CID, MATCHERS)
     st = Stats()
     build_err = None
+    build_log = ""
     try:
-        C.ensure_built([AREA], VO)
+        _ok, build_log = C.ensure_built([AREA], VO)
     except C.BuildError as ex:
         build_err = ex
+    gen_msgs = [l for l in (build_log or "").splitlines() if "TRANSLATE-ERROR" in l or "GENERATOR FAILED" in l]
     if build_err is not None:
         props = {"obligations": 0, "discharged": 0, "theorems": [], "assumptions": {},
                  "cmd": "coqc props/C17.v", "log": build_err.log, "ok": False}
@@ -830,6 +832,44 @@ def main():
                 if one is None or one.get() is None or one.get() is not one.get("Test/Zone"):
                     verdict.violation({"kind": "single zone is not returned without naming it",
                                        "input": {"text": "\r\n".join(lines)}})
+        # RFC 5545 unfolding removes CRLF + ONE leading blank only: a TZID / TZNAME containing blanks,
+        # folded right AFTER a blank, must keep that blank (the zone stays addressable by get(tzid))
+        for k, r in enumerate(rules[:(6 if tier == "quick" else 60)]):
+            dl, sd = local_onsets(o, r, years)
+            tzid = ["US Eastern Time", "America New York", "A B  C"][k % 3]
+            spaced = dict(r, name=r["name"] + " Std T", dst=dict(r["dst"], name=r["dst"]["name"] + " Day T"))
+            base_lines = vtimezone(spaced, dl, sd, "rdate", "daylight_first", rng, tzid=tzid)
+            folded = []
+            for l in base_lines:
+                p_ = l.find(" ")
+                if l.startswith(("TZID", "TZNAME")) and p_ > 0:
+                    folded += [l[:p_ + 1], " " + l[p_ + 1:]]
+                else:
+                    folded.append(l)
+            other = vtimezone(r, dl, sd, "rdate", "daylight_first", rng, tzid="Other/Zone")
+            text = "\r\n".join(folded + other) + "\r\n"
+            ic, status = build_ical(text)
+            st.evals += 1
+            st.bump("fold_after_blank")
+            got = None
+            if ic is not None:
+                try:
+                    zz = ic.get(tzid)
+                    got = None if zz is None else [c.tzname for c in zz._comps]
+                except Exception as ex:
+                    got = [P.exc_code(ex)]
+            want = [spaced["dst"]["name"], spaced["name"]]
+            if got != want:
+                verdict.violation({"kind": "a TZID / TZNAME folded right after a blank loses the blank: get(tzid) "
+                                           "does not find the zone or its names differ",
+                                   "input": {"text": text, "tzid": tzid}, "impl": got if ic is not None else status,
+                                   "want": want, "keys": None if ic is None else ic.keys()})
+                continue
+            mv = dec_structure(o.call(P.E_ICAL_PARSE, enc_lines(text.splitlines())))
+            if mv != [0, impl_structure(ic)]:
+                st.model_diff += 1
+                verdict.violation({"kind": "correspondence: _parse_rfc differs from the model",
+                                   "input": {"text": text}, "impl": impl_structure(ic), "model": mv}, concrete=False)
         # empty stream
         for text in ("", "\r\n", "BEGIN:VCALENDAR\r\nEND:VCALENDAR\r\n"):
             ic, status = build_ical(text)
@@ -858,6 +898,7 @@ def main():
     if not props["ok"] and not verdict.violations:
         verdict.violation({"kind": "broken proof obligation", "theorem_file": "coq/props/C17.v",
                            "theorems": props["theorems"], "discharged": props["discharged"], "input": None,
+                           "translator": gen_msgs[:10],
                            "log_tail": (props["log"] or "")[-3000:]}, concrete=False)
     verdict.violations.sort(key=lambda pc: 0 if pc[1] else 1)   # concrete failing inputs first
     rc = verdict.finish()
